@@ -62,16 +62,24 @@ def _flatten(args):
             yield a
 
 
-EXEC_LOG = []          # (kid, tuple(selected dependency values), t_start, t_stop, thread id)   in-process only
+EXEC_LOG = []          # (kid, tuple(selected dependency values), t_start, t_stop, thread id, run id)   in-process only
 EXEC_LOCK = threading.Lock()
+RUN = [0]              # id of the latest `render`; tasks of earlier calls may still be running in a shared pool
+                       # after their call raised (dask does not cancel them) - their log entries are filtered out
+
+
+def exec_log(run=None):
+    run = RUN[0] if run is None else run
+    with EXEC_LOCK:
+        return [e[:5] for e in EXEC_LOG if e[5] == run]
 
 
 class TaskFn:
     """Callable put into the graph for task node `kid`.  `sel` = positions (in the flattened argument
     list) of the first occurrence of every dependency, in dependency order; literals are skipped."""
 
-    def __init__(self, kid, sel, fail=None, delay=0.0):
-        self.kid, self.sel, self.fail, self.delay = kid, tuple(sel), fail, delay
+    def __init__(self, kid, sel, fail=None, delay=0.0, run=0):
+        self.kid, self.sel, self.fail, self.delay, self.run = kid, tuple(sel), fail, delay, run
 
     def __call__(self, *args):
         t0 = time.perf_counter()
@@ -81,11 +89,11 @@ class TaskFn:
         vals = tuple(flat[i] for i in self.sel)
         if self.fail:
             with EXEC_LOCK:
-                EXEC_LOG.append((self.kid, vals, t0, time.perf_counter(), threading.get_ident()))
+                EXEC_LOG.append((self.kid, vals, t0, time.perf_counter(), threading.get_ident(), self.run))
             raise FAIL_KINDS[self.fail](f"boom-{self.kid}")
         out = mix(self.kid, vals)
         with EXEC_LOCK:
-            EXEC_LOG.append((self.kid, vals, t0, time.perf_counter(), threading.get_ident()))
+            EXEC_LOG.append((self.kid, vals, t0, time.perf_counter(), threading.get_ident(), self.run))
         return out
 
     def __repr__(self):
@@ -184,6 +192,11 @@ def render(dag, fails=None, delays=None):
     kind, style = dag["keys"], dag["style"]
     keys = [key_of(i, kind) for i in range(len(dag["nodes"]))]
     dsk = {}
+    RUN[0] += 1
+    run = RUN[0]
+    if len(EXEC_LOG) > 20000:
+        with EXEC_LOCK:
+            del EXEC_LOG[:-2000]
     for i, node in enumerate(dag["nodes"]):
         st = style if style != "mixed" else ("legacy", "spec")[(i * 7 + len(dag["nodes"])) % 2]
         if node[0] == "x":
@@ -194,7 +207,7 @@ def render(dag, fails=None, delays=None):
             dsk[keys[i]] = keys[node[1]] if st == "legacy" else Alias(keys[i], keys[node[1]])
         else:
             deps, spec = node[1], node[2]
-            fn = TaskFn(i, first_positions(spec, len(deps)), fails.get(i), delays.get(i, 0.0))
+            fn = TaskFn(i, first_positions(spec, len(deps)), fails.get(i), delays.get(i, 0.0), run)
 
             def legacy(a):
                 if isinstance(a, list) and a and a[0] == "lit":
@@ -562,9 +575,8 @@ def run_trace(ctx, inp, diff=True):
         chooser = list_chooser(inp["choices"], branching)
     else:
         chooser = rng_chooser(random.Random(inp.get("seed", 0)), inp.get("bias"))
-    del EXEC_LOG[:]
     real = controlled_run(dsk, real_req, nw, cs, chooser, idof)
-    real["exec_log"] = list(EXEC_LOG)
+    real["exec_log"] = exec_log()
     real["branching"] = branching
     out = {"real": real, "dag": dag, "keys": keys, "idof": idof, "flat_ids": flat_ids, "fails": fails,
            "model": None, "ties": False}
@@ -622,14 +634,24 @@ def gen_trace_input(rng, max_n=9, fail_p=0.0, missing_p=0.0):
                   missing=rng.random() < missing_p, shape=rng.choice(["chain", "wide", "wide"]))
     nn = len(dag["nodes"])
     req = gen_req(rng, nn)
-    if rng.random() < 0.45:
+    r0 = rng.random()
+    if r0 < 0.07:
+        # the empty request and nested requests made of / containing empty lists: nothing (or little) is needed
+        some = rng.randrange(nn)
+        req = rng.choice([[], [], [[], []], [[]], [[], [some]], [[some], []], [[[]], []]])
+    elif r0 < 0.13 and any(nd[0] == "d" for nd in dag["nodes"]):
+        # only data (literal) keys requested: no task may run
+        datas = [i for i, nd in enumerate(dag["nodes"]) if nd[0] == "d"]
+        pick = rng.sample(datas, rng.randint(1, min(3, len(datas))))
+        req = rng.choice([pick[0], pick, [pick, []]])
+    elif r0 < 0.55:
         # request every sink: the whole graph is needed and many tasks are ready at the same time
         used = {d for i in range(nn) for d in node_deps(dag, i)}
         sinks = [i for i in range(nn) if i not in used and dag["nodes"][i][0] != "x"]
         rng.shuffle(sinks)
         req = sinks[:8] or req
     if any(dag["nodes"][i][0] == "x" for i in flatten_req(req)):
-        req = [i for i in flatten_req(req) if dag["nodes"][i][0] != "x"] or 0
+        req = [i for i in flatten_req(req) if dag["nodes"][i][0] != "x"]
     fails = {}
     tasks = [i for i, nd in enumerate(dag["nodes"]) if nd[0] == "t"]
     if tasks and rng.random() < fail_p:
